@@ -86,7 +86,7 @@ namespace pika::detail {
             // secondary command line handling, looking for --exit and other
             // options
             std::string cmd_line = ini.get_entry("pika.commandline.command", "") + " " +
-                ini.get_entry("pika.commandline.prepend_options", "") +
+                ini.get_entry("pika.commandline.prepend_options", "") + " " +
                 ini.get_entry("pika.commandline.options", "") +
                 ini.get_entry("pika.commandline.config_options", "");
 
